@@ -151,7 +151,8 @@ func checkC18(sc *Scenario) *CheckResult {
 		res.violate("double_dispatch", "c18:double", "request caused %d service and %d unknown-endpoint handler invocations", out.Invocations, out.UnknownCalls)
 	}
 	if strings.HasPrefix(sc.Note, "pre:") {
-		delegatedToUnknown := sc.Note == "pre:unknown_method" && sc.Config.Unknown
+		// (a request without any content-type is read as REST: its RPC-style path matches no route)
+		delegatedToUnknown := (sc.Note == "pre:unknown_method" || sc.Note == "pre:unclassifiable") && sc.Config.Unknown
 		if out.Invocations > 0 || (out.UnknownCalls > 0 && !delegatedToUnknown) {
 			res.violate("dispatch_after_reject", "c18:rejected:"+sc.Note, "request of class %s must be rejected during validation but a handler ran (%d service, %d unknown)", sc.Note, out.Invocations, out.UnknownCalls)
 		}
